@@ -65,7 +65,7 @@ def aworker():
         ex.abs_classes['AWorker'].set(ex, a[0], 'terminated', z3.BoolVal(True))
         return VBool(ex.fresh('term_ret', smt.Bool))
     return AbsClass('AWorker', fields={'alive': smt.Bool, 'closed': smt.Bool, 'waited': smt.Bool, 'waitret': smt.Bool,
-                                       'terminated': smt.Bool},
+                                       'terminated': smt.Bool, 'id': Val},
                     methods={'is_alive': is_alive, 'close': close, 'wait': wait, 'terminate': terminate},
                     text='a registered worker seen through its public interface')
 
@@ -83,7 +83,27 @@ def build(ex):
     ex.ext_models['threading.get_native_id'] = opaque('tid')
     ex.ext_models['threading.get_ident'] = opaque('ident')
 
+    def representation():
+        """how the registry is kept, read off the initialiser of Worker._active_children in the class body: the abstract view (which workers are
+        registered, how often) is defined per representation - 'list': the sequence itself; 'dict': the values of the mapping (a worker held under
+        n keys is registered n times)"""
+        import ast
+        for st in wci.node.body:
+            if isinstance(st, ast.Assign) and any(isinstance(t, ast.Name) and t.id == '_active_children' for t in st.targets):
+                if isinstance(st.value, ast.List) and not st.value.elts:
+                    return 'list'
+                if isinstance(st.value, ast.Dict) and not st.value.keys:
+                    return 'dict'
+                return 'other: ' + ast.unparse(st.value)
+        return 'other: no initialiser in the class body'
+    REP = representation()
+
     def registry_setup(ex_, env, extra_track=()):
+        if REP == 'dict':
+            return registry_setup_dict(ex_, env, extra_track)
+        if REP != 'list':
+            from pyvc.core import Undecided
+            raise Undecided(f'the registry Worker._active_children is kept in a container without an abstraction function here ({REP})')
         reg = ex_.alloc(HSymList(ex_.fresh('registry', SeqVal)))
         ex_.heap[reg.addr].elem_hint = ('abs', 'AWorker')
         ex_.class_attrs[(W, '_active_children')] = reg
@@ -119,6 +139,64 @@ def build(ex):
                            ex_.ghost.get('__cur_node__'), key=('lockdisc', mode, getattr(ex_.ghost.get('__cur_node__'), 'lineno', 0)))
         ex_.ghost['__classattr_access_hook__'] = hook
 
+    def registry_setup_dict(ex_, env, extra_track=()):
+        """the registry as a mapping (key -> worker): the registered workers are its values; vcnt(x) = number of keys holding x (ghost, kept by the engine)"""
+        IntArr = z3.ArraySort(Val, smt.Int)
+        h = HSymDict(ex_.fresh('reg_dom', z3.ArraySort(Val, smt.Bool)), ex_.fresh('reg_map', z3.ArraySort(Val, Val)), ('abs', 'AWorker'))
+        h.vcnt = ex_.fresh('reg_vcnt', IntArr)
+        reg = ex_.alloc(h)
+        ex_.class_attrs[(W, '_active_children')] = reg
+        lock = VAbs('Lock', Val.v_str(z3.IntVal(smt.str_code('<children_lock>'))))
+        ex_.class_attrs[(W, '_children_lock')] = lock
+        ex_.abs_classes['Lock'].set(ex_, lock, 'held', z3.BoolVal(False))
+        e0 = ex_.fresh('e0', Val)
+        track = [e0] + list(extra_track)
+        for e in track:
+            ex_.assume(z3.Select(h.vcnt, e) >= 0)
+        env['e0'] = VSym(e0, hint=('abs', 'AWorker'))
+        env['Worker'] = VClass(wci)
+        env['lock'] = lock
+        ex_.ghost['vcnt_at_acquire'] = h.vcnt
+        ex_.ghost['dict_track'] = track
+
+        def on_acquire(ex2, lk):
+            # rely: while the lock was free other threads may have registered workers (more keys, counts only grow); nothing else touches the registry
+            cur = ex2.heap[ex2.class_attrs[(W, '_active_children')].addr]
+            dom2 = ex2.fresh('reg_dom', z3.ArraySort(Val, smt.Bool))
+            map2 = ex2.fresh('reg_map', z3.ArraySort(Val, Val))
+            vc2 = ex2.fresh('reg_vcnt', IntArr)
+            ex2.assume(z3.IsSubset(cur.dom, dom2))
+            for e in ex2.ghost['dict_track']:
+                ex2.assume(z3.Select(vc2, e) >= z3.Select(cur.vcnt, e))
+            cur.dom, cur.map, cur.vcnt = dom2, map2, vc2
+            ex2.ghost['vcnt_at_acquire'] = vc2
+        ex_.ghost['__on_acquire__'] = on_acquire
+
+        def hook(interp, key, mode):
+            if key == (W, '_active_children'):
+                held = ex_.abs_classes['Lock'].get(ex_, lock, 'held')
+                ex_.oblige('lock', held, f'{mode} of Worker._active_children happens with Worker._children_lock held',
+                           ex_.ghost.get('__cur_node__'), key=('lockdisc', mode, getattr(ex_.ghost.get('__cur_node__'), 'lineno', 0)))
+        ex_.ghost['__classattr_access_hook__'] = hook
+
+    def reg_count(ex_, x, when='now'):
+        """how often x is registered: occurrences in the sequence / number of keys holding it"""
+        from pyvc.interp_data import cnt_f
+        if REP == 'dict':
+            vc = ex_.heap[ex_.class_attrs[(W, '_active_children')].addr].vcnt if when == 'now' else ex_.ghost['vcnt_at_acquire']
+            return z3.Select(vc, x)
+        seq = ex_.heap[ex_.class_attrs[(W, '_active_children')].addr].seq if when == 'now' else ex_.ghost['reg_at_acquire']
+        return cnt_f(x, seq)
+
+    def registered_once(c):
+        ex_ = c.ex
+        ch, e0 = lower(c.env['child'], ex_), c.env['e0'].t
+        after_child = reg_count(ex_, ch) == z3.If(reg_count(ex_, ch, 'acquire') == 0, 1, reg_count(ex_, ch, 'acquire'))
+        others = z3.Implies(e0 != ch, reg_count(ex_, e0) == reg_count(ex_, e0, 'acquire'))
+        return z3.And(after_child, others)
+    registered_once.__doc__ = ('register_child leaves the worker registered exactly once if it was not registered, and as often as before otherwise; '
+                               'every other worker (e0 arbitrary) is registered as often as before')
+
     ex.spec_functions['alive'] = lambda se, w: VBool(z3.Select(se.absfield('AWorker', 'alive'), Val.vakey(lower(w, ex)) if False else lower_key(w)))
     ex.spec_functions['closed'] = lambda se, w: VBool(z3.Select(se.absfield('AWorker', 'closed'), lower_key(w)))
     ex.spec_functions['waitret'] = lambda se, w: VBool(z3.Select(se.absfield('AWorker', 'waitret'), lower_key(w)))
@@ -146,7 +224,8 @@ def build(ex):
         W + '.register_child', lid='L2a', name='C19.L2a register_child appends the worker unless it is already registered, under the lock',
         params={'child': ('abs', 'AWorker')},
         setup=lambda ex_, env: registry_setup(ex_, env, extra_track=[lower(env['child'], ex_)]),
-        ensures=['Worker._active_children == (reg_at_acquire + (child,) if cnt(child, reg_at_acquire) == 0 else reg_at_acquire)'],
+        ensures=(['Worker._active_children == (reg_at_acquire + (child,) if cnt(child, reg_at_acquire) == 0 else reg_at_acquire)'] if REP == 'list'
+                 else [registered_once]),
         all_exits=['not lock.held'],
         raises={}, raises_only=[])
 
@@ -174,9 +253,8 @@ def build(ex):
         dead = dead if isinstance(dead, z3.ExprRef) else z3.BoolVal(bool(dead))
         live = z3.And(started, z3.Not(dead))
         me = c.env['me'].t
-        now = ex_.heap[ex_.class_attrs[(W, '_active_children')].addr].seq
-        before = ex_.ghost['reg_at_acquire']       # the registry as of the last lock acquisition (other threads may register meanwhile)
-        return cnt_f(me, now) == z3.If(z3.And(live, cnt_f(me, before) == 0), 1, cnt_f(me, before))
+        # 'before': the registry as of the last lock acquisition (other threads may register meanwhile)
+        return reg_count(ex_, me) == z3.If(z3.And(live, reg_count(ex_, me, 'acquire') == 0), 1, reg_count(ex_, me, 'acquire'))
     registered_iff_live.__doc__ = ('a (re)construction that ended with a live child leaves the worker registered: it is appended once unless it already is in the '
                                    'registry (a restart whose dead incarnation was pruned meanwhile must be registered again); otherwise the registry is unchanged')
 
@@ -186,9 +264,9 @@ def build(ex):
         params={'self': ('const', None), 'target': 'any', 'host': 'none', 'args': 'any', 'kwargs': 'any', 'name': 'any',
                 'userid': 'any', 'run': 'any', 'set_names': 'bool', 'init_state': 'any', '_is_restart': 'bool'},
         setup=init_setup,
-        ensures=[registered_iff_live,
-                 'cnt(e0, Worker._active_children) >= cnt(e0, old(Worker._active_children))',
-                 'implies(not self._started, self._result == (True, None))'],
+        ensures=[registered_iff_live] +
+                (['cnt(e0, Worker._active_children) >= cnt(e0, old(Worker._active_children))'] if REP == 'list' else []) +
+                ['implies(not self._started, self._result == (True, None))'],
         all_exits=['not lock.held'],
         raises={'ValueError': None}, raises_only=['ValueError'])
 
